@@ -51,8 +51,9 @@ struct FontInfo {
     glen: Vec<u32>,
     composites: Vec<u32>,
     var_glyphs: Vec<u32>,
-    /// glyph ids grouped by the outer index (ItemVariationData subtable) of their HVAR advance mapping; one group for
-    /// an implicit (glyph id) mapping, empty without HVAR
+    /// glyph ids whose HVAR advance delta row is not all zero, grouped by the outer index (ItemVariationData
+    /// subtable) of their advance mapping; one group for an implicit (glyph id) mapping, empty without HVAR.
+    /// (A subset whose kept rows are all zero loses its HVAR altogether: listed finding.)
     hvar_groups: Vec<Vec<u32>>,
     naxes: usize,
     kf_cmap: bool,
@@ -132,20 +133,30 @@ fn charmap_mappings(font: &FontRef) -> Vec<(u32, u32)> {
 
 fn hvar_groups(font: &FontRef, n: u32) -> Vec<Vec<u32>> {
     let Ok(hvar) = font.hvar() else { return vec![] };
+    let Ok(store) = hvar.item_variation_store() else { return vec![] };
+    let data = store.item_variation_data();
+    let varies = |outer: u16, inner: u16| -> bool {
+        match data.get(outer as usize) {
+            Some(Ok(d)) => inner < d.item_count() && d.delta_set(inner).any(|v| v != 0),
+            _ => false,
+        }
+    };
     let mut groups: BTreeMap<u16, Vec<u32>> = BTreeMap::new();
     match hvar.advance_width_mapping() {
         Some(Ok(map)) => {
             for g in 0..n {
                 if let Ok(ix) = map.get(g) {
-                    groups.entry(ix.outer).or_default().push(g);
+                    if varies(ix.outer, ix.inner) {
+                        groups.entry(ix.outer).or_default().push(g);
+                    }
                 }
             }
         }
         _ => {
-            groups.insert(0, (0..n).collect());
+            groups.insert(0, (0..n.min(0x10000)).filter(|g| varies(0, *g as u16)).collect());
         }
     }
-    groups.into_values().collect()
+    groups.into_values().filter(|g| !g.is_empty()).collect()
 }
 
 fn load_fonts() -> Vec<FontInfo> {
@@ -444,7 +455,13 @@ fn hvar_strategy() -> BoxedStrategy<Case> {
                     gids.extend(raws.iter().take(*k).map(|r| g[idx(*r, g.len())]));
                 }
             } else {
-                let pool: Vec<u32> = if f.var_glyphs.is_empty() { (0..f.n).collect() } else { f.var_glyphs.clone() };
+                let pool: Vec<u32> = if let Some(g) = groups.first() {
+                    (*g).clone()
+                } else if f.var_glyphs.is_empty() {
+                    (0..f.n).collect()
+                } else {
+                    f.var_glyphs.clone()
+                };
                 for (_, k, raws) in &picks {
                     gids.extend(raws.iter().take(*k).map(|r| pool[idx(*r, pool.len())]));
                 }
